@@ -5,7 +5,6 @@ CONSTANTS
   MaxKeys = 7
   EmptyTrieVerifies = FALSE
   CheckValueDepth = FALSE
-  IgnoreCachedHash = FALSE
   LeftEdgeChecked = FALSE
   MBTLen = 40
 INIT MBTInit
